@@ -7,7 +7,7 @@
    arithmetic, the C precedence table and the minimal-bracket printer, written independently. *)
 From Coq Require Import String Ascii List ZArith NArith Bool.
 From Verif Require Import Base.Res Spec.ExprTokens Spec.Arith Gen.GenOperators Model.Lexer Model.ExprParse
-                          Proofs.C05Ops Proofs.C05Lex Proofs.C05Parse Proofs.C05Eval.
+                          Model.ExprCache Proofs.C05Ops Proofs.C05Lex Proofs.C05Parse Proofs.C05Eval Proofs.C05Cache.
 Import ListNotations.
 Open Scope string_scope.
 
@@ -64,6 +64,21 @@ Theorem C05_parse_print_value :
             agrees (meval encode sym dot t) (eval enc sym dot e).
 Proof. exact parse_print_value. Qed.
 Print Assumptions C05_parse_print_value.
+
+(* ---- every evaluation of a token, not only the first ----------------------------------------------- *)
+(* the result cache of the impure operators (/ % << >>), with the discipline translated from
+   operators.wrap_impure, is transparent: for every sequence of operand values one token is evaluated
+   with (copies of a .repeat body), each evaluation returns what the operator body returns *)
+Theorem C05_cache_transparent : forall (invoke : list Z -> Z) (argss : list (list Z)),
+  run invoke None argss = map invoke argss.
+Proof. exact cache_transparent. Qed.
+Print Assumptions C05_cache_transparent.
+
+(* a cache that is not keyed on the operands is wrong after two evaluations (512/2 then 516/2) *)
+Theorem C05_unkeyed_cache_refuted : forall records,
+  exists invoke argss, run_with false records invoke None argss <> map invoke argss.
+Proof. exact unkeyed_refuted. Qed.
+Print Assumptions C05_unkeyed_cache_refuted.
 
 (* ---- (iii) literals ---------------------------------------------------------------------------------- *)
 (* every spelling (bare octal, trailing dot, 0x 0o 0b, ^X ^O ^B ^D; prefix and digits in either case)
